@@ -82,9 +82,29 @@ func c12Eval(count uint32, hs []h32, ps []*chainhash.Hash, flags []byte) (string
 	return why, nil
 }
 
+// c12Other is a fixed honest proof (3 transactions, the last one matched) used as a second object.
+func c12Other() (wire.MsgMerkleBlock, h32) {
+	l := []h32{{0xa1}, {0xa2}, {0xa3}}
+	hs, bits := refPMTBuild(l, []bool{false, false, true})
+	var ps []*chainhash.Hash
+	for i := range hs {
+		h := chainhash.Hash(hs[i])
+		ps = append(ps, &h)
+	}
+	lv := refLevels(l)
+	return wire.MsgMerkleBlock{Transactions: 3, Hashes: ps, Flags: packFlagBits(bits)}, lv[len(lv)-1][0]
+}
+
 func evalC12(c c12Case, o *Obs) error {
 	hs, ps := c12Hashes(c)
+	// another partial block is created before and extracted after: objects must not share state
+	omsg, oroot := c12Other()
+	other := merkleblock.NewMerkleBlockFromMsg(omsg)
 	why, err := c12Eval(c.Count, hs, ps, c.Flags)
+	if got := other.ExtractMatches(); got == nil || h32(*got) != oroot || len(other.GetItems()) != 1 || other.GetItems()[0] != 2 {
+		return fmt.Errorf("a second, honest partial block extracted after ExtractMatches(count=%d, flags %x) no longer verifies (root ok %v, items %v)",
+			c.Count, []byte(c.Flags), got != nil && h32(*got) == oroot, other.GetItems())
+	}
 	if why == "" {
 		o.Class("C12:accepted")
 		_, matches, _ := refPMTExtract(c.Count, hs, c.Flags)
